@@ -7,13 +7,16 @@ import (
 
 const (
 	// example: "/storage/v1/b/my-bucket/o/2013-tax-returns.pdf" (for a file) or "/storage/v1/b/my-bucket/o" (for a bucket)
-	gcsObjectPathPattern = "/storage/v1/b/([^\\/]+)/o(?:/(.+))?"
+	// The patterns are anchored: an unanchored match would find e.g. "/b/x/o/y" inside the public URL
+	// "/my-bucket/b/x/o/y" and serve object "y" of bucket "x" instead of object "b/x/o/y" of "my-bucket".
+	// The JSON API paths may be prefixed by "/download" or "/upload".
+	gcsObjectPathPattern = "^(?:/download|/upload)?/storage/v1/b/([^\\/]+)/o(?:/(.*))?$"
 	// example: "//b/my-bucket/o/2013-tax-returns.pdf" (for a file) or "/b/my-bucket/o" (for a bucket)
-	gcsObjectPathPattern2 = "/b/([^\\/]+)/o(?:/(.+))?"
+	gcsObjectPathPattern2 = "^/?/b/([^\\/]+)/o(?:/(.*))?$"
 	// example: "/storage/v1/b/my-bucket
-	gcsBucketPathPattern = "/storage/v1/b(?:/([^\\/]+))?"
+	gcsBucketPathPattern = "^(?:/download|/upload)?/storage/v1/b(?:/([^\\/]*))?/?$"
 	// example: "/my-bucket/2013-tax-returns.pdf" (for a file)
-	gcsStoragePathPattern = "/([^\\/]+)/(.+)"
+	gcsStoragePathPattern = "^/([^\\/]+)/(.+)$"
 )
 
 var (
